@@ -287,8 +287,12 @@ class Documentable:
         old_name = self.name
         self.parent = self.parentMod = new_parent
         self.name = new_name
-        self._handle_reparenting_post()
         del old_parent.contents[old_name]
+        if new_parent.contents.get(new_name) is not None:
+            # The name is already bound in the new parent: the re-exported object
+            # overrides it, like any later definition of the same name does.
+            self.system.handleDuplicate(self)
+        self._handle_reparenting_post()
         old_parent._localNameToFullName_map[old_name] = self.fullName()
         new_parent.contents[new_name] = self
         self._handle_reparenting_post()
